@@ -99,6 +99,7 @@ func corpus() []Case {
 		out = append(out, Case{Kind: "timing", Name: "bounds", Epoch: e, Recs: h.recs, Qs: q})
 	}
 	out = append(out, consumersCorpus()...)
+	out = append(out, unalignedCorpus()...)
 	return out
 }
 
@@ -138,6 +139,73 @@ func consumersFrom(r *vh.Rand, cs Case) Case {
 	day := (last-cs.Epoch)/Day + 2
 	return Case{Kind: "consumers", Name: "random", Epoch: cs.Epoch, Mainnet: cs.Mainnet, Recs: cs.Recs,
 		Kinds: kindPatterns[r.Intn(len(kindPatterns))], Qs: consumerQueries(cs.Epoch, day)}
+}
+
+// absoluteHourEdges are the instants around the wall-clock hour boundaries of
+// an epoch day: for an epoch that is not a whole number of hours they lie
+// inside the epoch hours, within the epoch's sub-hour offset of a boundary.
+func absoluteHourEdges(epoch, day uint64) []uint64 {
+	var ts []uint64
+	base := (epoch+day*Day)/Hour*Hour
+	for h := uint64(0); h <= 24; h++ {
+		t := base + h*Hour
+		ts = append(ts, t-1, t, t+1)
+	}
+	return ts
+}
+
+// unalignedCorpus: the hour windows on nodes whose epoch is not a whole number
+// of hours (and the aligned epoch as control): every predicate and every
+// operation at each window boundary +-1 ns and at the wall-clock hour
+// boundaries inside the epoch hours.
+func unalignedCorpus() []Case {
+	var out []Case
+	for i, off := range []uint64{0, 1, 37 * 60 * Second, Hour - 1, 59*60*Second + 999999999, Hour / 2} {
+		e := EpochMain + off
+		var hq, pq []Q
+		for _, d := range []uint64{1707, 1711} {
+			for _, t := range hourEdges(e, d) {
+				hq = append(hq, Q{Now: t})
+			}
+			for _, t := range absoluteHourEdges(e, d) {
+				hq = append(hq, Q{Now: t})
+			}
+		}
+		hq = append(hq, Q{Now: e}, Q{Now: e - 1}, Q{Now: e + 1})
+		out = append(out, Case{Kind: "hours", Name: "unaligned", Epoch: e, Qs: hq})
+		for _, t := range append(hourEdges(e, 41), absoluteHourEdges(e, 41)...) {
+			pq = append(pq, Q{Now: t})
+		}
+		out = append(out, Case{Kind: "prepare", Name: "unaligned", Epoch: e, Qs: pq})
+		// removal by 9 nodes
+		h := membership(9, e)
+		var rq []Q
+		for _, t := range append(hourEdges(e, 9), absoluteHourEdges(e, 9)...) {
+			rq = append(rq, Q{Now: t, Node: 0})
+		}
+		out = append(out, Case{Kind: "remove", Name: "unaligned", Epoch: e, Mainnet: i%2 == 0, Recs: h.recs, Qs: rq})
+		// accept / cancel of a node pledged on day 20
+		x := h.fresh()
+		p := e + 20*Day + 1*Hour + 7
+		h.add(x, p, "P", false)
+		var tq []Q
+		for _, chain := range []int{x + 1, 0} {
+			for _, t := range append(hourEdges(e, 22), absoluteHourEdges(e, 22)...) {
+				tq = append(tq, Q{Now: t, Chain: chain})
+			}
+		}
+		out = append(out, Case{Kind: "timing", Name: "unaligned", Epoch: e, Mainnet: i%2 == 0, Recs: h.recs, Qs: tq})
+		// elections across the epoch-day boundaries
+		h2 := membership(9, e)
+		var eq []Q
+		for d := uint64(3); d < 10; d++ {
+			for _, t := range []uint64{e + d*Day - 1, e + d*Day, e + d*Day + 1, (e+d*Day)/Day*Day - 1, (e+d*Day)/Day*Day, (e+d*Day)/Hour*Hour + Hour} {
+				eq = append(eq, Q{Op: validOps[int(d)%len(validOps)], Now: t})
+			}
+		}
+		out = append(out, Case{Kind: "elect", Name: "unaligned", Epoch: e, Mainnet: i%2 == 1, Recs: h2.recs, Qs: eq})
+	}
+	return out
 }
 
 func sweep(c *vh.Ctx) []Case {
